@@ -522,12 +522,97 @@ def cases(ctx):
         yield rand_store_case(rng, fmts)
     for _ in range(700 if quick else 6000):
         yield rand_case(rng, fmts)
+    # labels that are not their own file / table names (encoder) with one configuration per label
+    erng = ctx.rng('enc')
+    for _ in range(60 if quick else 600):
+        yield rand_enc_case(erng, [f for f in fmts if f in ('zip_csv', 'zip_tsv', 'zip_pickle', 'sqlite')])
     if not quick:
         for c in exhaustive_cases('zip_pickle'):
             yield c
         for i, c in enumerate(exhaustive_cases('zip_csv')):
             if i % 7 == 0:
                 yield c
+
+
+def rand_enc_case(rng, fmts):
+    fmt = rng.choice(fmts)
+    n = rng.randint(2, 4)
+    lkind = rng.choice(['int', 'tuple', 'date'])
+    if lkind == 'int':
+        labels = rng.sample(range(1, 40), n)
+    elif lkind == 'tuple':
+        labels = [list(t) for t in rng.sample([(a, b) for a in ('a', 'b', 'c') for b in (1, 2, 3)], n)]
+    else:
+        labels = sorted(rng.sample(range(1, 28), n))
+    frames = [rand_safe_frame(rng, f'f{k}', k + 1, rng.choice(['auto', 'str', 'int', 'auto']), fmt) for k in range(n)]
+    return {'k': 'enc', 'fmt': fmt, 'lkind': lkind, 'labels': labels, 'frames': frames, 'n': n,
+            'default_depth': rng.choice([0, 1]), 'in_map': [rng.random() < 0.7 for _ in range(n)],
+            'route': rng.choice(['bus', 'store'])}
+
+
+def eval_enc(ctx, c):
+    """write a Bus whose labels need an encoder, one StoreConfig per label (index written or not); every label must come
+    back, in order, with the frame that was written under it, through a lazy Bus and through the store itself"""
+    import datetime
+    import static_frame as sf
+    from static_frame.core.store import StoreConfig, StoreConfigMap
+    fails = []
+    fmt, lkind = c['fmt'], c['lkind']
+    ctx.count(f'enc_{fmt}_{lkind}')
+    if lkind == 'int':
+        labels = list(c['labels']); dec = int
+    elif lkind == 'tuple':
+        labels = [tuple(x) for x in c['labels']]
+        dec = lambda s: (s.split('|')[0], int(s.split('|')[1]))
+    else:
+        labels = [datetime.date(2021, 3, d) for d in c['labels']]
+        dec = lambda s: datetime.date.fromisoformat(s)
+    enc = (lambda l: f'{l[0]}|{l[1]}') if lkind == 'tuple' else str
+    shared = dict(label_encoder=enc, label_decoder=dec)
+    frames = [build_frame(spec) for spec in c['frames']]
+    depth = [frame_depth(spec) for spec in c['frames']]
+
+    def sc(d):
+        return StoreConfig(index_depth=d, columns_depth=1, include_index=d > 0, include_columns=True, **shared)
+    d0 = c['default_depth']
+    in_map = [m or depth[i] != d0 for i, m in enumerate(c['in_map'])]
+    config = StoreConfigMap({l: sc(depth[i]) for i, l in enumerate(labels) if in_map[i]}, default=sc(d0))
+    desc = f'{fmt} labels={labels!r} depths={depth} default_depth={d0} in_map={in_map}'
+    strict = fmt == 'zip_pickle'
+    bus = sf.Bus.from_items(list(zip(labels, frames)))
+    d = tmpdir()
+    fp = os.path.join(d, f'enc_{abs(hash(repr(c))) % 10 ** 9}{EXT[fmt]}')
+    try:
+        getattr(bus, 'to_' + fmt)(fp, config=config)
+        if c['route'] == 'bus':
+            back = getattr(sf.Bus, 'from_' + fmt)(fp, config=config)
+            got_labels = list(back.index)
+            got = [back[l] for l in labels] if got_labels == labels else None
+        else:
+            from static_frame.core import store_zip, store_sqlite
+            cls = {'zip_csv': store_zip.StoreZipCSV, 'zip_tsv': store_zip.StoreZipTSV, 'zip_pickle': store_zip.StoreZipPickle,
+                   'sqlite': store_sqlite.StoreSQLite}[fmt]
+            st = cls(fp)
+            got_labels = list(st.labels(config=config))
+            got = list(st.read_many(labels, config=config)) if got_labels == labels else None
+    except Exception as ex:
+        return [Failure('oracle', f'encoded-label round trip {desc} raised {type(ex).__name__}: {str(ex)[:160]}', c, detail={'exc': type(ex).__name__})]
+    finally:
+        try:
+            os.remove(fp)
+        except OSError:
+            pass
+    if got is None:
+        return [Failure('oracle', f'encoded-label round trip {desc}: labels read back {got_labels!r}', c)]
+    for l, f0, f1 in zip(labels, frames, got):
+        a, b = snap(f0, strict), snap(f1.rename(f0.name) if not strict else f1, strict)
+        if fmt == 'sqlite' and a != b and snap_rows_sorted(f0) == snap_rows_sorted(f1.rename(f0.name)):
+            ctx.count('enc_sqlite_row_order_F63')
+            continue
+        if a[0] != b[0] or a[1] != b[1] or a[4] != b[4] or [x[1] for x in a[2]] != [x[1] for x in b[2]]:
+            fails.append(Failure('oracle', f'encoded-label round trip {desc}: frame under {l!r} came back with index {b[0]} columns {b[1]} shape {b[4]}; written index {a[0]} columns {a[1]} shape {a[4]}', c))
+            break
+    return fails
 
 
 def search(ctx):
@@ -538,6 +623,8 @@ def search(ctx):
 
 
 def nontrivial(c):
+    if c['k'] == 'enc':
+        return True
     if c['k'] == 'store':
         return any(o[0] in ('read', 'labels') for o in c['ops'])
     return c['n'] > 0 and any(o[0] in ('acc', 'vals') for o in c['ops'])
@@ -551,6 +638,8 @@ def ids_of(case):
 
 
 def model_lines(c):
+    if c['k'] == 'enc':
+        return []
     if c['k'] == 'store':
         ops = []
         for o in c['ops']:
@@ -817,6 +906,8 @@ class Ref:
 
 
 def evaluate(ctx, c, outs):
+    if c['k'] == 'enc':
+        return eval_enc(ctx, c)
     if c['k'] == 'store':
         return eval_store(ctx, c, outs)
     return eval_hist(ctx, c, outs)
